@@ -62,6 +62,7 @@ FN_NAME = {1: "refine_hmmscan_results(neighbour_mode=True)", 2: "refine_hmmscan_
            12: "detect_protoclusters_and_signatures (circular, origin-crossing genes) + end-to-end dumps",
            13: "Record.create_regions (circular, origin-crossing first section, twin areas)"}
 FN_NAME[16] = FN_NAME[12]
+FN_NAME[20] = "hmm_detection.get_ruleset limited to rule names (order of the rules handed out)"
 
 # texts of the finding classes of this check.  All ten are REPAIRED in the code (known_findings.json: status fixed), so none
 # is tolerated: a difference between children inside a class is reported as a counterexample "(class X, not recorded as
@@ -498,7 +499,20 @@ def gen_regions(rng):
     return {"length": length, "protos": protos, "subs": subs}
 
 
-GENERATORS = {1: gen_refine, 2: gen_refine, 3: gen_pipeline, 4: gen_formation, 5: gen_unique, 6: gen_strings, 7: gen_notes,
+SELECTABLE = ["T1PKS", "NRPS", "NRPS-like", "terpene", "terpene-precursor", "T2PKS", "arylpolyene", "HR-T2PKS", "PKS-like",
+              "lanthipeptide-class-i", "lanthipeptide-class-ii", "RiPP-like", "bottromycin", "siderophore", "ectoine",
+              "betalactone", "hglE-KS", "transAT-PKS", "T3PKS", "phosphonate", "NAPAA", "CDPS", "indole", "butyrolactone"]
+
+
+def gen_selection(rng):
+    """ two to eight rule names for --hmmdetection-limit-to-rule-names, in a random order, sometimes one twice """
+    names = rng.sample(SELECTABLE, rng.choice([2, 2, 3, 4, 5, 8]))
+    if rng.random() < 0.2:
+        names.append(rng.choice(names))
+    return {"names": names, "taxon": rng.choice(["bacteria", "bacteria", "fungi"])}
+
+
+GENERATORS = {20: gen_selection, 1: gen_refine, 2: gen_refine, 3: gen_pipeline, 4: gen_formation, 5: gen_unique, 6: gen_strings, 7: gen_notes,
               8: gen_annotate, 9: gen_filter, 10: gen_terpene, 11: gen_terpene_e2e, 12: gen_crossing, 13: gen_regions}
 
 
@@ -1230,7 +1244,38 @@ def child_regions(_fn, args, rng, keep):
     return [], dumps
 
 
-CHILD = {1: child_refine, 2: child_refine, 3: child_pipeline, 4: child_formation, 5: child_unique, 6: child_strings,
+_ALL_RULE_NAMES = {}
+
+
+def child_selection(_fn, args, _rng, _keep):
+    """ get_ruleset with the selection; the rules of the files are numbered in the order of the UNRESTRICTED ruleset """
+    from antismash.config import build_config, destroy_config
+    from antismash.detection import hmm_detection
+
+    def ruleset_for(names):
+        opts = ["--hmmdetection-strictness", "loose", "--taxon", args["taxon"]]
+        if names:
+            opts += ["--hmmdetection-limit-to-rule-names", ",".join(names)]
+        destroy_config()
+        options = build_config(opts, isolated=True, modules=[hmm_detection])
+        hmm_detection._RULESETS.clear()  # pylint: disable=protected-access
+        try:
+            return hmm_detection.get_ruleset(options)
+        finally:
+            destroy_config()
+    if args["taxon"] not in _ALL_RULE_NAMES:
+        _ALL_RULE_NAMES[args["taxon"]] = [rule.name for rule in ruleset_for([]).rules]
+    every = _ALL_RULE_NAMES[args["taxon"]]
+    ident = {name: i for i, name in enumerate(every)}
+    names = [name for name in args["names"] if name in ident]
+    if len(names) < 2:
+        return [], {"skipped": "fewer than two of the names are rules of this tree"}
+    observed = list(set(names))          # an enumeration of the selection as a set of str in THIS process
+    handed = [rule.name for rule in ruleset_for(names).rules]
+    return [([PROP, 20, len(every), len(observed)] + [ident[name] for name in observed], [len(handed)] + [ident[name] for name in handed])], {}
+
+
+CHILD = {20: child_selection, 1: child_refine, 2: child_refine, 3: child_pipeline, 4: child_formation, 5: child_unique, 6: child_strings,
          7: child_notes, 8: child_annotate, 9: child_filter, 10: child_terpene, 11: child_terpene_e2e,
          12: child_crossing, 13: child_regions}
 
@@ -1300,8 +1345,9 @@ def run_children(cases, seeds, jobs=6):
 
 def plan(tier):
     if tier == "quick":
-        return {1: 600, 2: 600, 3: 250, 4: 600, 5: 700, 6: 400, 7: 300, 8: 300, 9: 250, 10: 400, 11: 150, 12: 260, 13: 120}, [0, 1, 2, 3, 4, 5]
-    return {1: 6000, 2: 6000, 3: 1500, 4: 4500, 5: 4500, 6: 2000, 7: 1200, 8: 1200, 9: 1500, 10: 2500, 11: 600, 12: 1500, 13: 500}, list(range(0, 18))
+        return {1: 600, 2: 600, 3: 250, 4: 600, 5: 700, 6: 400, 7: 300, 8: 300, 9: 250, 10: 400, 11: 150, 12: 260, 13: 120,
+                20: 40}, [0, 1, 2, 3, 4, 5]
+    return {1: 6000, 2: 6000, 3: 1500, 4: 4500, 5: 4500, 6: 2000, 7: 1200, 8: 1200, 9: 1500, 10: 2500, 11: 600, 12: 1500, 13: 500, 20: 200}, list(range(0, 18))
 
 
 # the fixed witnesses of the findings C17-K1..K3 (all three repaired in the code; regression corpus, run first, every time)
@@ -1517,6 +1563,8 @@ def nontrivial(case, flat):
         # two or more origin-crossing genes with a common profile
         crossing = [set(args["hits"].get(name, ())) for name, parts in args["genes"] if len(parts) > 1]
         return any(crossing[i] & crossing[j] for i in range(len(crossing)) for j in range(i))
+    if fn == 20:
+        return len(set(args["names"])) >= 2
     if fn == 13:
         spans = [tuple(p[:2]) for p in args["protos"]] + [tuple(sub[:2]) for sub in args["subs"]]
         return len(set(spans)) != len(spans)
